@@ -1,7 +1,9 @@
 // Harness for C02 (Size() = bytes written = header size field, at every level): the aggregates.
-//   c02 search -seed S -n N : files of the repo's testdata through both decoders x {segment, box-tree} x
-//                             {no optimisation, OptimizeTrun}; API-built init segments, fragments and media
-//                             segments; for each the history Size, Encode, Size, Info, Encode, EncodeSW.
+//
+//	c02 search -seed S -n N : files of the repo's testdata through both decoders x {segment, box-tree} x
+//	                          {no optimisation, OptimizeTrun}; API-built init segments, fragments and media
+//	                          segments; for each the history Size, Encode, Size, Info, Encode, EncodeSW.
+//
 // (the per-node oracle on single boxes is `c01 search -prop c02`)
 package main
 
@@ -10,6 +12,7 @@ import (
 	"bytes"
 	"flag"
 	"fmt"
+	"io"
 	"os"
 	"path/filepath"
 	"sort"
@@ -44,9 +47,9 @@ type sized interface {
 type agg struct {
 	name   string
 	size   func() uint64
-	encode func(*bytes.Buffer) error
+	encode func(io.Writer) error
 	encsw  func(bits.SliceWriter) error
-	info   func(*bytes.Buffer) error
+	info   func(io.Writer) error
 }
 
 // history runs Size, Encode, Size, Info, Encode, EncodeSW on one aggregate and checks C02.
@@ -66,6 +69,82 @@ func encS(a agg) ([]byte, error) {
 	sw := bits.NewFixedSliceWriter(int(a.size()))
 	err := a.encsw(sw)
 	return sw.Bytes(), err
+}
+
+// quotaWriter accepts `left` bytes and then fails (a full disk, a closed connection): a partial write returns the number
+// of bytes taken together with the error, as io.Writer demands. After the fault every later write fails too unless
+// `recover` is set (a writer that had one transient fault).
+type quotaWriter struct {
+	left    int
+	n       int
+	faulted bool
+	recover bool
+}
+
+var errQuota = fmt.Errorf("quota writer: no room")
+
+func (q *quotaWriter) Write(p []byte) (int, error) {
+	if q.faulted && !q.recover {
+		return 0, errQuota
+	}
+	if !q.faulted && len(p) > q.left {
+		n := q.left
+		q.n += n
+		q.left = 0
+		q.faulted = true
+		return n, errQuota
+	}
+	if !q.faulted {
+		q.left -= len(p)
+	}
+	q.n += len(p)
+	return len(p), nil
+}
+
+// faultyEncode: Encode into writers that fail after k < Size() bytes. "Whenever Encode reports success the number of
+// bytes written equals Size()": an Encode that lost bytes to a writer fault must not report success.
+func faultyEncode(a agg, witness string, size uint64, good []byte) {
+	if size == 0 || size > 1<<22 {
+		return
+	}
+	ks := []uint64{0, 1, 7, 8, 9, 15, 16, 17, size / 3, size / 2, size - 9, size - 8, size - 1}
+	// the fault right behind every box header and in the middle of every leaf payload of the output
+	if nodes, ok := bx.Scan(good, 0, len(good), 0); ok {
+		var walk func(ns []*bx.Node)
+		cnt := 0
+		walk = func(ns []*bx.Node) {
+			for _, n := range ns {
+				if cnt > 64 {
+					return
+				}
+				cnt++
+				ks = append(ks, uint64(n.Off), uint64(n.Off+n.HdrLen), uint64(n.Off+n.HdrLen+1), uint64(n.Off+n.Size-1))
+				walk(n.Children)
+			}
+		}
+		walk(nodes)
+	}
+	done := map[uint64]bool{}
+	for _, k := range ks {
+		if k >= size || done[k] {
+			continue
+		}
+		done[k] = true
+		for _, rec := range []bool{false, true} {
+			q := &quotaWriter{left: int(k), recover: rec}
+			var e error
+			p := hx.Try(func() { e = a.encode(q) })
+			evals++
+			if p != "" {
+				fail(a.name, "panic", witness, fmt.Sprintf("Encode into a writer that fails after %d bytes panics: %s", k, p))
+				return
+			}
+			if e == nil {
+				fail(a.name, "encode-success-after-writer-fault", witness, fmt.Sprintf("Encode into a writer that fails after %d of %d bytes (recovering afterwards: %v) reports success; %d bytes were written, Size() = %d", k, size, rec, q.n, a.size()))
+				return
+			}
+		}
+	}
 }
 
 // historyOrder: swFirst makes EncodeSW the FIRST encode of the structure (and Encode the later ones)
@@ -113,6 +192,7 @@ func historyOrder(a agg, witness string, optimize bool, swFirst bool) []byte {
 	if e2 != nil || !bytes.Equal(b1, b2) {
 		fail(a.name, "encode-twice-differs", witness, fmt.Sprintf("second %s (after Info) gives %d bytes / err=%v, first gave %d", nameFirst, len(b2), e2, len(b1)))
 	}
+	faultyEncode(a, witness, s1, b1)
 	if a.encsw != nil {
 		var b3 []byte
 		var e3 error
@@ -313,8 +393,8 @@ func doSencDecoded(seed uint64, n int) {
 }
 
 func fileAgg(f *mp4.File, name string) agg {
-	return agg{name, f.Size, func(b *bytes.Buffer) error { return f.Encode(b) }, f.EncodeSW,
-		func(b *bytes.Buffer) error { return f.Info(b, "all:1", "", "  ") }}
+	return agg{name, f.Size, func(b io.Writer) error { return f.Encode(b) }, f.EncodeSW,
+		func(b io.Writer) error { return f.Info(b, "all:1", "", "  ") }}
 }
 
 func decodeFile(data []byte, sr bool, mode mp4.EncFragFileMode) (f *mp4.File, err error) {
@@ -389,8 +469,8 @@ func doFiles(repo string) (nfiles int) {
 					}
 					if f2.Init != nil {
 						i := f2.Init
-						history(agg{"InitSegment", i.Size, func(b *bytes.Buffer) error { return i.Encode(b) }, i.EncodeSW,
-							func(b *bytes.Buffer) error { return i.Info(b, "all:1", "", "  ") }}, w, false)
+						history(agg{"InitSegment", i.Size, func(b io.Writer) error { return i.Encode(b) }, i.EncodeSW,
+							func(b io.Writer) error { return i.Info(b, "all:1", "", "  ") }}, w, false)
 					}
 					for si, seg := range f2.Segments {
 						if si > 3 {
@@ -400,8 +480,8 @@ func doFiles(repo string) (nfiles int) {
 						if opt {
 							s.EncOptimize = mp4.OptimizeTrun
 						}
-						history(agg{"MediaSegment", s.Size, func(b *bytes.Buffer) error { return s.Encode(b) }, s.EncodeSW,
-							func(b *bytes.Buffer) error { return s.Info(b, "all:1", "", "  ") }}, fmt.Sprintf("%s segment=%d", w, si), opt)
+						history(agg{"MediaSegment", s.Size, func(b io.Writer) error { return s.Encode(b) }, s.EncodeSW,
+							func(b io.Writer) error { return s.Info(b, "all:1", "", "  ") }}, fmt.Sprintf("%s segment=%d", w, si), opt)
 					}
 					f3, err := decodeFile(data, sr, mode)
 					if err != nil || f3 == nil {
@@ -419,8 +499,8 @@ func doFiles(repo string) (nfiles int) {
 							if opt {
 								g.EncOptimize = mp4.OptimizeTrun
 							}
-							history(agg{"Fragment", g.Size, func(b *bytes.Buffer) error { return g.Encode(b) }, g.EncodeSW,
-								func(b *bytes.Buffer) error { return g.Info(b, "all:1", "", "  ") }}, fmt.Sprintf("%s segment=%d fragment=%d", w, si, fi), opt)
+							history(agg{"Fragment", g.Size, func(b io.Writer) error { return g.Encode(b) }, g.EncodeSW,
+								func(b io.Writer) error { return g.Info(b, "all:1", "", "  ") }}, fmt.Sprintf("%s segment=%d fragment=%d", w, si, fi), opt)
 						}
 					}
 				}
@@ -479,8 +559,8 @@ func doBuilt(seed uint64, n int) {
 			}
 			desc = append(desc, mt+":"+lang)
 		}
-		history(agg{"InitSegment(built)", init.Size, func(b *bytes.Buffer) error { return init.Encode(b) }, init.EncodeSW,
-			func(b *bytes.Buffer) error { return init.Info(b, "all:1", "", "  ") }}, "CreateEmptyInit+AddEmptyTrack "+strings.Join(desc, ","), false)
+		history(agg{"InitSegment(built)", init.Size, func(b io.Writer) error { return init.Encode(b) }, init.EncodeSW,
+			func(b io.Writer) error { return init.Info(b, "all:1", "", "  ") }}, "CreateEmptyInit+AddEmptyTrack "+strings.Join(desc, ","), false)
 
 		// media segment with k sidx boxes and m fragments
 		opt := r.Bool()
@@ -553,16 +633,16 @@ func doBuilt(seed uint64, n int) {
 					if opt {
 						g.EncOptimize = mp4.OptimizeTrun
 					}
-					history(agg{"Fragment(built)", g.Size, func(b *bytes.Buffer) error { return g.Encode(b) }, g.EncodeSW,
-						func(b *bytes.Buffer) error { return g.Info(b, "all:1", "", "  ") }}, ws2, opt)
+					history(agg{"Fragment(built)", g.Size, func(b io.Writer) error { return g.Encode(b) }, g.EncodeSW,
+						func(b io.Writer) error { return g.Info(b, "all:1", "", "  ") }}, ws2, opt)
 				}
 			}
 		}
 		if !okb {
 			continue
 		}
-		history(agg{"MediaSegment(built)", seg.Size, func(b *bytes.Buffer) error { return seg.Encode(b) }, seg.EncodeSW,
-			func(b *bytes.Buffer) error { return seg.Info(b, "all:1", "", "  ") }}, ws, opt)
+		history(agg{"MediaSegment(built)", seg.Size, func(b io.Writer) error { return seg.Encode(b) }, seg.EncodeSW,
+			func(b io.Writer) error { return seg.Info(b, "all:1", "", "  ") }}, ws, opt)
 	}
 }
 
@@ -734,8 +814,8 @@ func doBuiltBoxes(seed uint64) {
 			how += " OptimizeTrun"
 		}
 		g := fr
-		history(agg{"Fragment(built)", g.Size, func(b *bytes.Buffer) error { return g.Encode(b) }, g.EncodeSW,
-			func(b *bytes.Buffer) error { return g.Info(b, "all:1", "", "  ") }}, how, opt)
+		history(agg{"Fragment(built)", g.Size, func(b io.Writer) error { return g.Encode(b) }, g.EncodeSW,
+			func(b io.Writer) error { return g.Info(b, "all:1", "", "  ") }}, how, opt)
 		boxCheck(g.Moof, how+" -> Moof after Encode")
 	}
 }
